@@ -8,6 +8,9 @@
 #define VF_MAIN
 #include "common.hpp"
 #include <BayesFilters/utils.h>
+#include <sys/types.h>
+#include <sys/wait.h>
+#include <unistd.h>
 
 using namespace bfl;
 using namespace Eigen;
@@ -69,6 +72,24 @@ static MatrixXd do_mean(const MatrixXd& w, const MatrixXd& q) {
     return m;
 }
 
+// The re-entrancy probe runs in a forked child: code that shares hidden state between threads (a function-local static
+// buffer resized by two callers) corrupts the heap, and the corruption must not reach the records this process prints
+// (garbage bytes in the output, a crash after the last record).  The child reports through its exit status; a child that
+// crashes or is killed counts as "callers interfere".  No thread is alive at the time of the fork.
+static int concurrent_probe(const std::vector<std::function<MatrixXd()>>& jobs, int reps) {
+#if defined(__SANITIZE_ADDRESS__)
+    // under AddressSanitizer a fork per case is very expensive (shadow memory) and not needed: heap misuse is reported by the sanitizer itself
+    return vf::concurrent_same(jobs, reps) ? 1 : 0;
+#endif
+    std::cout.flush(); fflush(stdout);
+    const pid_t pid = fork();
+    if (pid < 0) return vf::concurrent_same(jobs, reps) ? 1 : 0;
+    if (pid == 0) { const bool ok = vf::concurrent_same(jobs, reps); _exit(ok ? 0 : 1); }
+    int status = 0;
+    if (waitpid(pid, &status, 0) != pid) return 0;
+    return (WIFEXITED(status) && WEXITSTATUS(status) == 0) ? 1 : 0;
+}
+
 int main() {
     vf::Case c;
     while (vf::read_case(std::cin, c)) {
@@ -118,7 +139,7 @@ int main() {
                     jobs.push_back([wt, q]() { MatrixXd m = utils::mean_quaternion(wt, q); return m; });
                 }
             }
-            vf::out_int("concurrent_equal", vf::concurrent_same(jobs, reps) ? 1 : 0);
+            vf::out_int("concurrent_equal", concurrent_probe(jobs, reps));
         }
         vf::out_int("via_equal", via_ok ? 1 : 0);
         vf::out_end();
